@@ -257,6 +257,7 @@ fn error_text_key(label: &str, is_rsa: bool) -> bool {
     label.contains("rsa2048_1") || (label.contains("_1.pkcs8") && !label.contains("rsa2048_2"))
 }
 
+#[cfg(feature = "crypto")]
 pub fn run(prop: &str, tier: &str, replay: Option<&str>) -> i32 {
     run::set_replay(replay);
     let thorough = tier == "thorough";
